@@ -189,6 +189,7 @@ class ImplRunner:
         self.lines_out = []
         self.emitted = {}
         self.faults = {}
+        CLOCK.install()         # (a real-thread scenario run earlier in this process leaves the real / frozen clock installed)
         CLOCK.ns = 0
 
     # ---------- event plumbing ----------
